@@ -121,13 +121,31 @@ import sys, json, hashlib
 sys.path.insert(0, sys.argv[1])
 from Reduino.transpile.parser import parse
 from Reduino.transpile.emitter import emit
+import os
 pool = json.load(sys.stdin)
 out = []
 for src in pool:
-    try:
-        out.append(hashlib.sha256(emit(parse(src)).encode()).hexdigest())
-    except Exception as e:
-        out.append("EXC:" + type(e).__name__ + ":" + str(e)[:80])
+    # one forked child per script: every digest comes from the module state right after import, untouched by the other scripts
+    rd, wr = os.pipe()
+    pid = os.fork()
+    if pid == 0:
+        os.close(rd)
+        try:
+            res = hashlib.sha256(emit(parse(src)).encode()).hexdigest()
+        except Exception as e:
+            res = "EXC:" + type(e).__name__ + ":" + str(e)[:80]
+        os.write(wr, res.encode("utf-8", "replace"))
+        os._exit(0)
+    os.close(wr)
+    buf = b""
+    while True:
+        chunk = os.read(rd, 65536)
+        if not chunk:
+            break
+        buf += chunk
+    os.close(rd)
+    os.waitpid(pid, 0)
+    out.append(buf.decode("utf-8", "replace") if buf else "EXC:child-died")
 print(json.dumps(out))
 """
 
@@ -190,7 +208,13 @@ def device_matrix(variant):
             f"srv = Servo({pins(6)}" + ["", ", min_angle=10, max_angle=170", ", min_pulse_us=600, max_pulse_us=2300"][k] + ")",
             f"mot = DCMotor({pins(2, 4, 3)})", f"bz = Buzzer({pins(8)}" + ["", ", default_frequency=880", ""][k] + ")", lcd,
             f"pot = Potentiometer('A{k}')", f"us = Ultrasonic({pins(15, 16)})", "def clicked():", "    mon.write('c')", f"btn = Button({pins(7)}, on_click=clicked)"]
-    calls = ["led.toggle()", "led.blink(2, 2)", "led.fade_in(50, 1)", "led.flash_pattern([1, 0, 1], 2)", "led.set_brightness(90)", "rgb.set_color(1, 2, 3)", "rgb.fade(5, 6, 7, 10, 2)",
+    # equal numbers in different spellings (5 / 5.0 / (2 + 3)), explicit arguments equal to the defaults another script leaves out
+    num = lambda x: [str(x), f"{x}.0", f"({x - 1} + 1)"][k]
+    extra = [["bz.beep(440)", "led.blink(100)", "rgb.fade(1, 2, 3)", "mot.ramp(0.5, 100)"],
+             ["bz.beep(440, on_ms=100, off_ms=100, times=1)", "led.blink(100, 1)", "rgb.fade(1, 2, 3, 1000, 50)", "mot.ramp(0.5, 100.0)"],
+             ["bz.beep(440.0, on_ms=100.0, off_ms=100.0)", "led.blink(duration_ms=100.0)", "rgb.fade(1, 2, 3, duration_ms=1000.0)", "mot.ramp(target_speed=0.5, duration_ms=100)"]][k]
+    extra += [f"sleep({num(5)})", f"bz.play_tone({num(440)}, {num(5)})", f"srv.write({num(45)})", f"led.set_brightness({num(100)})", f"lcd.write({num(0)}, 0, 'n')"]
+    calls = extra + ["led.toggle()", "led.blink(2, 2)", "led.fade_in(50, 1)", "led.flash_pattern([1, 0, 1], 2)", "led.set_brightness(90)", "rgb.set_color(1, 2, 3)", "rgb.fade(5, 6, 7, 10, 2)",
              "rgb.blink(1, 2, 3, times=2, delay_ms=3)", "srv.write(90)", "srv.write_us(1500)", "mot.set_speed(0.5)", "mot.ramp(1.0, 10)", "mot.run_for(5, 0.25)", "mot.stop()",
              "bz.play_tone(440, 5)", "bz.beep(440, on_ms=2, off_ms=2, times=2)", "bz.sweep(200, 400, duration_ms=4, steps=2)", "bz.melody('siren')", "bz.melody('notify', tempo=200)",
              "lcd.write(0, 0, 'hi')", "lcd.line(0, 'yo', align='right')", "lcd.message('a')", "lcd.glyph(1, [1, 2, 4, 8, 16, 31, 0, 21])", "lcd.progress(0, 50, 100)", "lcd.brightness(100)" if k == 1 else "lcd.clear()",
@@ -258,7 +282,7 @@ def run_shard(name, seed, tier, what, n):
 
     @hseed(seed)
     @hyp_settings(n, phases=(Phase.generate,))
-    @given(st.lists(st.integers(0, min(len(srcs), 6) - 1), min_size=2, max_size=12), st.integers(0, max(0, len(srcs) - 6)))
+    @given(st.lists(st.integers(0, min(len(srcs), 6) - 1), min_size=2, max_size=12), st.one_of(st.just(0), st.integers(0, max(0, len(srcs) - 6))))   # half of the histories run over the window that holds the device-matrix scripts
     def prop(order, off):
         from Reduino.transpile.parser import parse
 
